@@ -81,7 +81,7 @@ SHAPES = {
     L.LiteralFloat: dict(value=_real, dtype=_const(L.DataType.REAL)),
     L.LiteralInt: dict(value=_int, dtype=_const(L.DataType.INT)),
     L.Symbol: dict(name=_str, dtype=_dtype),
-    L.MultiIndex: dict(dtype=_const(L.DataType.INT), global_index=lexpr, sizes=_const(None), symbols=_const(None)),
+    L.MultiIndex: dict(dtype=_const(L.DataType.INT), global_index=lambda interp, name: SLazy(L.LExpr, [L.LiteralInt, L.Sum], name), sizes=_const(None), symbols=_const(None)),
     L.PrefixUnaryOp: dict(arg=lexpr),
     L.Neg: dict(arg=lexpr, dtype=_dtype),
     L.BinOp: dict(lhs=lexpr, rhs=lexpr),
